@@ -183,6 +183,19 @@ def rule_descent(ctx):
                         r_ = op_root(op)
                         if r_ is not None:
                             out |= resolve(key, r_, tuple(e["n"] for e in op["pl"]["p"] if isinstance(e, dict) and "f" in e), depth, stack, seen)
+                elif rv.get("agg") == "adt" and rv.get("adt") in tc and rv.get("adt") not in rec and not rv.get("closure"):
+                    # a carrier that is not itself a node of a syntax tree (a struct grouping a binder and a body, say): as large as
+                    # the trees put into it - parts of the input if every one of them is
+                    sub_ = set()
+                    for op in rv["ops"]:
+                        r_ = op_root(op)
+                        if r_ is not None and carries(fn_.f["locals"][r_], fn_.f["crate"]):
+                            got = resolve(key, r_, tuple(e["n"] for e in op["pl"]["p"] if isinstance(e, dict) and "f" in e), depth, stack, seen)
+                            sub_ |= got if got else {(("built", _o(fn_, o)), frozenset())}
+                    if sub_ and all(l_[0] == "arg" for l_, _ in sub_):
+                        out |= sub_
+                    else:
+                        out.add((("built", _o(fn_, o)), frozenset()))
                 else:
                     out.add((("built", _o(fn_, o)), frozenset()))
             elif o[0] == "call":
@@ -256,6 +269,7 @@ def rule_descent(ctx):
     n_sites = 0
     n_skipped = [0]
     used_rows = set()
+    pending = []
     for comp in comps:
         members = set(comp)
         if all(_is_std_trait_impl(fx.fns[k]) or "{closure" in k and _is_std_trait_impl(fx.fns.get(k.split("::{closure")[0], {})) for k in comp):
@@ -297,6 +311,7 @@ def rule_descent(ctx):
                 audited_ok = None
                 detail = []
                 n_tree_args = 0
+                all_good = []
                 callee = sorted(targets)[0]
                 ekey = "%s -> %s" % (k, callee if len(targets) == 1 else (t.get("callee_trait") or "?") + "::" + (t.get("callee_name") or "?"))
                 row = rows.get(ekey)
@@ -315,6 +330,7 @@ def rule_descent(ctx):
                     # flow-insensitive provenance: `self.x = self.x.f()` makes the old and the new value both origins of
                     # `self.x`; one origin that is a part of the input is accepted as the witness
                     good = [(l_, v_) for l_, v_ in leaves if l_[0] == "arg" and tree_param(l_[1]) and (not (is_closure and l_[1] == 1) or l_[2])]
+                    all_good.extend(good)
                     plain = [g for g in good if not g[1]]
                     if plain:
                         witness = (ai, plain[0][0])
@@ -339,10 +355,31 @@ def rule_descent(ctx):
                     res.inst(ekey + "@%d" % n_sites, file, line, "audited", "%s: %s (argument %d is a part of parameter %d passed through %s)" %
                              (row.get("class", "AUDITED"), row["reason"], audited_ok[0], audited_ok[1][0][1], "/".join(sorted(audited_ok[1][1]))))
                     continue
-                res.inst(ekey + "@%d" % n_sites, file, line, "violation", "; ".join(detail)[:300])
-                res.violate(ekey, "recursive call %s is not a structural descent: no tree-carrying argument is a part of the caller's "
-                            "input (%s); the recursion is not bounded by the size of the program" % (ekey, "; ".join(detail)[:400] or "no tree-carrying argument"),
-                            file, line)
+                vias = [g[1] for g in all_good if g[1]]
+                pending.append((ekey, n_sites, k, t.get("callee_name"), vias, file, line, detail))
+    # an audited call that moved into another function of the same crate (a helper extracted around it, a renamed caller): the row
+    # whose own edge is gone stands for one such call when the callee method is the same and the value still passes only through
+    # the calls the row lists
+    for ekey, n_at, k, cname, vias, file, line, detail in pending:
+        crate = fx.fns[k]["crate"]
+        moved = None
+        for rk_ in sorted(set(rows) - used_rows):
+            row = rows[rk_]
+            rcaller, rcallee = rk_.split(" -> ")
+            rf = fx.fns.get(rcaller)
+            rcrate = rf["crate"] if rf else rcaller.lstrip("<").split("::")[0]
+            if rcrate == crate and rcallee.rstrip(">").split("::")[-1] == cname and vias and any(v <= set(row.get("via", [])) for v in vias):
+                moved = rk_
+                break
+        if moved:
+            used_rows.add(moved)
+            res.inst(ekey + "@%d" % n_at, file, line, "audited", "%s (row of %s, whose own call is gone): %s" %
+                     (rows[moved].get("class", "AUDITED"), moved.split(" -> ")[0].split(" as ")[0].lstrip("<").split("::")[-1], rows[moved]["reason"]))
+            continue
+        res.inst(ekey + "@%d" % n_at, file, line, "violation", "; ".join(detail)[:300])
+        res.violate(ekey, "recursive call %s is not a structural descent: no tree-carrying argument is a part of the caller's "
+                    "input (%s); the recursion is not bounded by the size of the program" % (ekey, "; ".join(detail)[:400] or "no tree-carrying argument"),
+                    file, line)
     stale = sorted(set(rows) - used_rows)
     for s in stale:
         res.inst("stale-row:" + s, None, None, "ok", "audit row no longer matches a non-structural recursive call (harmless)", nontrivial=False)
